@@ -26,6 +26,17 @@ Streams (model `Wpull.Decomp` vs the real code of the checkout under test):
            timeout taken from --session-timeout through the real argument
            parser and FetchRule (None, 0.5, 5, 30 s) x codings x framings x
            file kept / None x truncated / corrupt; same oracle
+  history  several decoder objects in ONE process (Stream objects and wrapper
+           objects): decoders abandoned after 0 / 1 / 2 bytes, mid-stream, after
+           an error, without flush; two or more alive at once and fed
+           alternately; then a fresh decoder on a valid body.  Each object is
+           replayed alone by the model over its own calls and zlib log (frame
+           property); oracle: an object run to its flush yields the one-shot
+           decoding of what IT was fed
+  headers  the rest of the header block as a dimension (Content-Type incl.
+           application/gzip and x-gzip, Content-Disposition, URL endings .gz /
+           .tgz / .html) at the function level, through read_body and through
+           the web client: the result must be the one with Content-Encoding alone
   framing  which body reader ran (inferred from the raw read() calls on the
            connection's StreamReader) vs the model's effectiveFraming, with
            ignore_length as a dimension over all three framings
@@ -75,6 +86,8 @@ RULE = ('payloads (empty / tiny / text / random / runs, 0..70 kB) x compression 
         'seq: all 36 ordered pairs of codings (x3) + random triples through one Stream object, function level and over one connection; '
         'web: WebClient/WebSession fetch x session timeout (None, 0.5, 5, 30) x codings x framings x file kept/None; '
         'ignore_length x {length, chunked, close}; chunk layouts: random, all 1-byte chunks, boundaries inside the coding header (1, 2, 8, 10) and trailer (8, 4+4, 1, 2); '
+        'history: 2-4 decoder objects x plans (full, abandon after 0/1/2 bytes, mid, no flush, broken) x sequential/interleaved; '
+        'headers: 11 Content-Type values x Content-Disposition x URL endings; '
         'overrun: Content-Length framing x 1..700 surplus bytes x body sizes 1..20000 (around 4096 / 8192) x cut sets; '
         'bomb: highly compressible 150 kB-1 MB payloads where a non-final piece inflates past 64 KiB; '
         'non-trivial = a decoder object is selected and the body is not empty; distinct by (coding, body, pieces, level)')
@@ -142,11 +155,15 @@ class LoggingZlib:
         self.log = []
         self.nobj = 0
         self.odd = []
+        self.current = None       # histories: the decoder object on whose behalf zlib is being called
+        self.owner_of = {}
 
     def decompressobj(self, wbits=zlib.MAX_WBITS, *args, **kw):
         if args or kw:
             self.odd.append('decompressobj with zdict')
-        return LoggedObj(self, wbits)
+        obj = LoggedObj(self, wbits)
+        self.owner_of[obj.idx] = self.current
+        return obj
 
     def __getattr__(self, name):
         return getattr(zlib, name)
@@ -631,11 +648,26 @@ def chunked_frame(rng, body):
     return wire, regions
 
 
+def extra_head(extra):
+    """extra header lines that must not influence decoding: Content-Type, Content-Disposition"""
+    out = b''
+    if extra:
+        if extra.get('ctype') is not None:
+            out += b'Content-Type: ' + extra['ctype'].encode('latin-1') + b'\r\n'
+        if extra.get('cdisp') is not None:
+            out += b'Content-Disposition: ' + extra['cdisp'].encode('latin-1') + b'\r\n'
+    return out
+
+
+def extra_url(extra):
+    return 'http://h' + ((extra or {}).get('path') or '/')
+
+
 def is_chunked(strategy):
     return strategy in ('chunked', 'ignorelen-chunked')
 
 
-def real_e2e(header_value, strategy, wire_body, cuts, regions, filemode='keep', declared=None, reads=None):
+def real_e2e(header_value, strategy, wire_body, cuts, regions, filemode='keep', declared=None, reads=None, extra=None):
     """Real Stream.read_response + read_body.  -> (res, pieces seen by the decoder, log, odd)
     strategy: close | length | chunked | badlength (unparseable Content-Length -> until close) |
               ignorelen / ignorelen-chunked / ignorelen-close: Stream(ignore_length=True) with a Content-Length
@@ -645,7 +677,7 @@ def real_e2e(header_value, strategy, wire_body, cuts, regions, filemode='keep', 
     from wpull.protocol.http.stream import Stream
     from wpull.protocol.http.request import Request
     from wpull.network.connection import Connection
-    head = b'HTTP/1.1 200 OK\r\n'
+    head = b'HTTP/1.1 200 OK\r\n' + extra_head(extra)
     if header_value:
         head += b'Content-Encoding: ' + header_value.encode('latin-1') + b'\r\n'
     if strategy in ('length', 'ignorelen'):
@@ -678,10 +710,11 @@ def real_e2e(header_value, strategy, wire_body, cuts, regions, filemode='keep', 
                     return d
                 fc.reader.read = logged_read
             stream = Stream(conn, keep_alive=True, ignore_length=strategy.startswith('ignorelen'))
-            request = Request('http://h/')
+            request = Request(extra_url(extra))
 
             async def client():
                 response = await compat._ensure(stream.read_response())
+                response.request = request
                 if reads is not None:
                     del reads[:]
                 stream.data_event_dispatcher.add_read_listener(lambda d: seen.append(bytes(d)))
@@ -759,7 +792,7 @@ def stream_e2e(ctx, cases):
             cuts = sorted(set(cuts) | {rng.randrange(1, len(body))})
             cuts = [c for c in cuts if c <= len(body) - 1 or c >= len(body) + 1]
         res, pieces, log, odd = real_e2e(header_value, strategy, wire, cuts, regions, filemode,
-                                         declared=len(body), reads=reads)
+                                         declared=len(body), reads=reads, extra=meta.get('extra'))
         if strategy == 'overrun':
             meta = dict(meta, reads=[len(r) for r in reads], surplus=len(wire) - len(body))
             lens_reads.append((len(body), [r for r in reads], pieces))
@@ -1299,7 +1332,7 @@ class _OneResponse:
         await conn.send_segments(self.segs, eof=True, yields=2)
 
 
-def real_web(header_value, strategy, wire_body, cuts, regions, timeout, keep):
+def real_web(header_value, strategy, wire_body, cuts, regions, timeout, keep, extra=None):
     """Fetch as the crawler does: WebClient.session(request) -> start() -> download(file=..., duration_timeout=...)
     -> (res, pieces the Stream read, log, odd)"""
     from wpull.protocol.http.client import Client
@@ -1308,7 +1341,7 @@ def real_web(header_value, strategy, wire_body, cuts, regions, timeout, keep):
     from wpull.protocol.http.stream import Stream
     from wpull.network.pool import ConnectionPool
     from wpull.body import Body
-    head = b'HTTP/1.1 200 OK\r\n'
+    head = b'HTTP/1.1 200 OK\r\n' + extra_head(extra)
     if header_value is not None:
         head += b'Content-Encoding: ' + header_value.encode('latin-1') + b'\r\n'
     if strategy == 'length':
@@ -1330,7 +1363,7 @@ def real_web(header_value, strategy, wire_body, cuts, regions, timeout, keep):
         with net:
             pool = ConnectionPool(resolver=fakenet.FakeResolver())
             web_client = WebClient(http_client=Client(connection_pool=pool, stream_factory=stream_factory))
-            session = web_client.session(Request('http://h/'))
+            session = web_client.session(Request(extra_url(extra)))
             body = Body(io.BytesIO()) if keep else None
 
             async def client():
@@ -1383,7 +1416,7 @@ def stream_web(ctx, cases):
                                                                else ['none', 'one', 'few']))
         how, t = fetch_rule_timeout(timeout)
         ctx.note('web_option_glue', how)
-        res, pieces, log, odd = real_web(hdr, strategy, wire, cuts, regions, t, keep)
+        res, pieces, log, odd = real_web(hdr, strategy, wire, cuts, regions, t, keep, extra=meta.get('extra'))
         rows.append((coding, hdr, body, strategy, meta, seed, timeout, keep, res, pieces, log, odd, wire))
         reqs.append('decomp web %s %s %s %s %s' % ('T' if keep else 'F', 'None' if timeout is None else int(timeout * 1000),
                                                    enc_opt(hdr), enc_pieces(pieces), enc_log(log)))
@@ -1445,6 +1478,270 @@ def family_web(ctx, rng, n):
     stream_web(ctx, cases)
 
 
+# ------------------------------------------------------------------ the rest of the header block must not matter
+CTYPES = [None, 'text/html', 'application/gzip', 'application/x-gzip', 'Application/X-GZIP', 'application/gzip; charset=binary',
+          ' application/x-gzip ', 'application/octet-stream', 'application/x-tar', 'application/x-tgz', 'text/html; charset=utf-8']
+CDISPS = [None, None, 'attachment; filename="a.tar.gz"', 'attachment; filename=page.html', 'inline']
+PATHS = ['/', '/index.html', '/dump.gz', '/backup.tgz', '/a.tar.gz', '/x.GZ', '/page.html?f=a.gz']
+
+
+def real_body_x(hdr, extra, pieces):
+    """stream-level functions with a full header block and a request URL on the response"""
+    from wpull.protocol.http.stream import Stream
+    from wpull.protocol.http.request import Request, Response
+    with logged_zlib() as z:
+        st = Stream(None)
+        resp = Response(200, 'OK')
+        resp.request = Request(extra_url(extra))
+        if extra.get('ctype') is not None:
+            resp.fields['Content-Type'] = extra['ctype']
+        if extra.get('cdisp') is not None:
+            resp.fields['Content-Disposition'] = extra['cdisp']
+        if hdr is not None:
+            resp.fields['Content-Encoding'] = hdr
+        outs = []
+        try:
+            st._setup_decompressor(resp)
+            for p in pieces:
+                outs.append(bytes(st._decompress_data(p)))
+            outs.append(bytes(st._flush_decompressor()))
+            res = ('ok', b''.join(outs))
+        except Exception as e:  # noqa
+            res = ('exc', classify_exc(e))
+    return res, outs, z.log, z.odd
+
+
+def stream_headers(ctx, cases):
+    """cases: (kind, hdr, coding, body, cuts, meta) with meta['extra'] = {ctype, cdisp, path}"""
+    rows, reqs = [], []
+    for (kind, hdr, coding, body, cuts, meta) in cases:
+        pieces = fakenet.segment(body, cuts)
+        extra = meta['extra']
+        res, outs, log, odd = real_body_x(hdr, extra, pieces)
+        rows.append((kind, hdr, coding, body, cuts, meta, res, outs, log, odd))
+        reqs.append('decomp respx %s %s %s %s %s %s' % (enc_opt(hdr), enc_opt(extra.get('ctype')), enc_opt(extra.get('cdisp')),
+                                                       enc(extra_url(extra)), enc_pieces(pieces), enc_log(log)))
+    reps = ctx.model.ask(reqs)
+    for (kind, hdr, coding, body, cuts, meta, res, outs, log, odd), rep in zip(rows, reps):
+        extra = meta['extra']
+        case = {'stream': 'headers', 'kind': kind, 'header': hdr, 'coding': coding, 'body': body, 'cuts': list(cuts), 'meta': meta}
+        ctx.case(('headers', kind, body, tuple(cuts), repr(sorted(extra.items()))), nontrivial=coding != 'i',
+                 tags=['headers:ctype=%s' % extra.get('ctype'), 'headers:path=%s' % extra.get('path'),
+                       'headers:result=' + (res[0] if res[0] == 'ok' else res[1])])
+        real = '%s %s %s' % (fmt_res(res), enc_pieces(outs), 0)
+        if real != rep:
+            ctx.disagree('headers', case, rep[:400], real[:400])
+        monitor_zlib(ctx, log, case)
+        # the property: the same body with a bare header block, and one-shot zlib
+        bare = real_body(coding, [body] if body else [], header=hdr)[0]
+        ref = reference(coding, body)
+        if res != bare and not (ref[0] == 'err' and res[0] == 'exc' and bare[0] == 'exc'):
+            ctx.fail('depends-on-other-headers', 'setup_decompressor', case,
+                     'Content-Type %r / Content-Disposition %r / URL %r change the result: %s, with Content-Encoding alone: %s'
+                     % (extra.get('ctype'), extra.get('cdisp'), extra.get('path'), fmt_res(res)[:80], fmt_res(bare)[:80]))
+            continue
+        oracle(ctx, case, coding, body, res, bare, ref, meta, where='setup_decompressor')
+
+
+def family_headers(ctx, rng, n):
+    fn, e2e, web = [], [], []
+    combos = [(ct, cd, pa) for ct in CTYPES for cd in (None, CDISPS[2]) for pa in ('/', '/dump.gz', '/backup.tgz', '/index.html')]
+    rng.shuffle(combos)
+    picks = combos[:max(n, len(CTYPES) * 3)]
+    for ct in CTYPES:                      # every Content-Type at least once with a .gz URL and gzip coding
+        picks.append((ct, rng.choice(CDISPS), rng.choice(PATHS[2:6])))
+    for idx, (ct, cd, pa) in enumerate(picks):
+        kind = ['gzip', 'gzip', 'zlib', 'raw', 'none', 'gzip'][idx % 6]
+        hdr, fmt, coding = SEQ_KINDS[kind]
+        payload = gen_payload(rng, rng.choice([5, 40, 300]))
+        body, desc = make_body(rng, fmt, payload)
+        meta = {'fmt': fmt, 'enc': desc, 'mut': 'valid', 'extra': {'ctype': ct, 'cdisp': cd, 'path': pa}}
+        r = rng.random()
+        if r < 0.3 and body and fmt != 'plain':
+            body, meta['mut'] = body[:rng.randrange(1, len(body))], 'truncated'
+        elif r < 0.4 and fmt != 'plain':
+            body, meta['mut'] = mutate(rng, body)
+        n_b = len(body)
+        cuts = rng.choice([[], [1], list(range(1, n_b)), fakenet.random_cuts(rng, n_b, 'few')])
+        fn.append((kind, hdr, coding, body, [c for c in cuts if 0 < c < n_b], meta))
+        if idx % 2 == 0:
+            st = rng.choice(['close', 'length', 'chunked'])
+            e2e.append((coding, hdr or '', body, st, meta, 'hdr/%d/%d' % (ctx.seed, idx), rng.choice(['keep', 'keep', 'none'])))
+        if idx % 3 == 0:
+            web.append((coding, hdr, body, rng.choice(['close', 'length', 'chunked']), meta, 'hdr/%d/%d' % (ctx.seed, idx),
+                        rng.choice([None, 5]), True))
+    stream_headers(ctx, fn)
+    stream_e2e(ctx, e2e)
+    stream_web(ctx, web)
+
+
+# ------------------------------------------------------------------ histories over several decoder objects in one process
+def run_history(objs, sched):
+    """objs: [(level, coding)], level 's' = a Stream object (stream-level functions), 'w' = a wrapper object used
+    directly; sched: [(i, op)], op = 'N' (create the object) | 'F' (flush) | bytes (feed).  Objects are created at
+    their first op.  After an exception an object gets no further calls (it is abandoned).
+    -> (per object: executed ops, results), per-object zlib logs, odd"""
+    from wpull.protocol.http.stream import Stream
+    from wpull.protocol.http.request import Response
+    import wpull.decompression as wd
+    inst = [None] * len(objs)
+    done_ops = [[] for _ in objs]
+    results = [[] for _ in objs]
+    dead = [False] * len(objs)
+    with logged_zlib() as z:
+        def make(i):
+            level, coding = objs[i]
+            if level == 's':
+                st = Stream(None)
+                resp = Response(200, 'OK')
+                if HEADER_OF[coding]:
+                    resp.fields['Content-Encoding'] = HEADER_OF[coding]
+                st._setup_decompressor(resp)
+                return st
+            return wd.GzipDecompressor() if coding == 'g' else wd.DeflateDecompressor()
+        for (i, op) in sched:
+            if dead[i]:
+                continue
+            z.current = i
+            try:
+                if inst[i] is None:
+                    inst[i] = make(i)
+                if op == 'N':
+                    continue
+                o = inst[i]
+                if objs[i][0] == 's':
+                    out = o._flush_decompressor() if op == 'F' else o._decompress_data(op)
+                else:
+                    out = o.flush() if op == 'F' else o.decompress(op)
+                done_ops[i].append(op)
+                results[i].append(('ok', bytes(out)))
+            except Exception as e:  # noqa
+                done_ops[i].append(op)
+                results[i].append(('exc', classify_exc(e)))
+                dead[i] = True
+            finally:
+                z.current = None
+    logs = [[] for _ in objs]
+    for ent in z.log:
+        owner = z.owner_of.get(ent[0])
+        if owner is None:
+            z.odd.append('zlib object created outside a decoder call')
+        else:
+            logs[owner].append(ent)
+    return done_ops, results, logs, z.odd
+
+
+def build_history(rng, forced=None):
+    """-> (objs, sched, meta per object)"""
+    k = rng.choice([2, 2, 3, 4])
+    plans = forced or [rng.choice(['full', 'abandon0', 'abandon1', 'abandon1', 'abandon2', 'mid', 'noflush', 'broken'])
+                       for _ in range(k - 1)] + ['full']
+    objs, scripts, metas = [], [], []
+    for j, plan in enumerate(plans):
+        level = rng.choice('sw')
+        coding = rng.choice('ddg')
+        fmt = 'gzip' if coding == 'g' else rng.choice(['zlib', 'raw'])
+        body, desc = make_body(rng, fmt, gen_payload(rng, rng.choice([1, 5, 40, 300])))
+        mut = 'valid'
+        if plan == 'broken':
+            body, mut = mutate(rng, body)
+        n = len(body)
+        cuts = rng.choice([[], [1], [1, 2], list(range(1, n)), fakenet.random_cuts(rng, n, 'few')])
+        pieces = fakenet.segment(body, [c for c in cuts if 0 < c < n])
+        if plan == 'abandon0':
+            ops = ['N']
+        elif plan == 'abandon1':
+            ops = ['N', body[:1]]
+        elif plan == 'abandon2':
+            ops = ['N', body[:1], body[1:2]] if rng.random() < 0.5 else ['N', body[:2]]
+        elif plan == 'mid':
+            ops = ['N'] + pieces[:max(1, len(pieces) // 2)]
+        elif plan == 'noflush':
+            ops = ['N'] + pieces
+        else:
+            ops = ['N'] + pieces + ['F']
+        objs.append((level, coding))
+        scripts.append([op for op in ops if op != b''])
+        metas.append({'plan': plan, 'fmt': fmt, 'enc': desc, 'mut': mut})
+    # merge: sequential, or interleaved (objects alive at once, fed alternately), keeping each object's own order
+    order = rng.choice(['sequential', 'interleaved', 'interleaved'])
+    sched = []
+    if order == 'sequential':
+        for i, sc in enumerate(scripts):
+            sched += [(i, op) for op in sc]
+    else:
+        pos = [0] * len(scripts)
+        last = len(scripts) - 1
+        while any(pos[i] < len(scripts[i]) for i in range(len(scripts))):
+            live = [i for i in range(len(scripts)) if pos[i] < len(scripts[i])]
+            # the last (fresh, valid) object starts only after every other object has had at least one call
+            cand = [i for i in live if i != last or all(pos[x] > 0 or not scripts[x] for x in range(last))] or live
+            i = rng.choice(cand)
+            sched.append((i, scripts[i][pos[i]]))
+            pos[i] += 1
+    return objs, sched, metas
+
+
+def enc_ops(ops):
+    return '~' if not ops else '/'.join('F' if op == 'F' else enc(op) for op in ops)
+
+
+def stream_history(ctx, histories):
+    rows, reqs = [], []
+    for (objs, sched, metas) in histories:
+        done_ops, results, logs, odd = run_history(objs, sched)
+        rows.append((objs, sched, metas, done_ops, results, logs, odd))
+        for i, (level, coding) in enumerate(objs):
+            reqs.append('decomp steps %s %s %s %s' % (level, coding, enc_ops(done_ops[i]), enc_log(logs[i])))
+    reps = ctx.model.ask(reqs)
+    r = 0
+    for (objs, sched, metas, done_ops, results, logs, odd) in rows:
+        case = {'stream': 'history', 'objs': [list(o) for o in objs],
+                'sched': [[i, op] for (i, op) in sched], 'metas': metas}
+        for i, (level, coding) in enumerate(objs):
+            rep = reps[r]
+            r += 1
+            real = ('~' if not results[i] else '/'.join(('ok:' + enc(x[1])) if x[0] == 'ok' else ('exc:' + x[1]) for x in results[i])) + ' 0'
+            ctx.case(('history', tuple(objs), tuple(sched), i), nontrivial=i > 0,
+                     tags=['history:plan=' + metas[i]['plan'], 'history:obj=%s%s' % (level, coding),
+                           'history:objects=%d' % len(objs)])
+            if real != rep:
+                ctx.disagree('history', dict(case, index=i), rep[:300], real[:300])
+            monitor_zlib(ctx, logs[i], dict(case, index=i))
+            # the property, independent of the model: an object that was run to its flush produced the one-shot
+            # decoding of what IT was fed, whatever other decoder objects did before or in between
+            ops = done_ops[i]
+            if not ops or (ops[-1] != 'F' and results[i][-1][0] == 'ok'):
+                continue
+            fed = b''.join(op for op in ops if op != 'F')
+            final = results[i][-1] if results[i][-1][0] == 'exc' else ('ok', b''.join(x[1] for x in results[i]))
+            ref = reference(coding, fed)
+            err_name = 'ProtocolError' if level == 's' else 'ZlibError'
+            if ref[0] == 'ok' and ops[-1] == 'F' and final != ('ok', ref[1]):
+                ctx.fail('depends-on-other-decoder', 'history', dict(case, index=i),
+                         'object %d (%s%s, %s) was fed %d bytes that decode one-shot to %d bytes, but gave %s'
+                         % (i, level, coding, metas[i]['plan'], len(fed), len(ref[1]), fmt_res(final)[:120]))
+            elif ref[0] == 'err' and ops[-1] == 'F' and final[0] == 'ok':
+                ctx.fail('corrupt-accepted', 'history', dict(case, index=i), 'undecodable input accepted by object %d' % i)
+            elif final[0] == 'exc' and final[1] != err_name:
+                ctx.fail('not-protocol-error', 'history', dict(case, index=i), 'object %d raised %s' % (i, final[1]))
+        if odd:
+            ctx.disagree('history-zlib-api', case, 'plain calls on behalf of a decoder', odd[0])
+    if rows:
+        ctx.sample({'stream': 'history', 'objs': rows[0][0], 'sched': rows[0][1][:12]})
+
+
+def family_history(ctx, rng, n):
+    hs = []
+    for forced in (['abandon1', 'full'], ['abandon1', 'full', 'full'], ['abandon2', 'full'], ['abandon0', 'full'],
+                   ['mid', 'full'], ['noflush', 'full'], ['broken', 'full'], ['full', 'full'], ['abandon1', 'abandon1', 'full']):
+        for _ in range(4):
+            hs.append(build_history(rng, forced))
+    for _ in range(n):
+        hs.append(build_history(rng))
+    stream_history(ctx, hs)
+
+
 # ------------------------------------------------------------------ entry points
 def load_corpus(ctx):
     out = []
@@ -1488,6 +1785,10 @@ def replay(ctx, case, kind=None, where=None):
     elif s == 'web':
         stream_web(ctx, [(case['coding'], case['header'], case['body'], case['strategy'], case.get('meta', {}), case['seed'],
                           case.get('timeout'), case.get('keep', True))])
+    elif s == 'headers':
+        stream_headers(ctx, [(case['kind'], case['header'], case['coding'], case['body'], case['cuts'], case['meta'])])
+    elif s == 'history':
+        stream_history(ctx, [([tuple(o) for o in case['objs']], [(i, op) for (i, op) in case['sched']], case['metas'])])
     elif s == 'hdr':
         stream_hdr(ctx, [case['data']])
     elif s == 'coding':
@@ -1518,6 +1819,8 @@ def run(ctx):
     family_seq(ctx, rng, ctx.scale(60, 1500))
     family_web(ctx, rng, ctx.scale(60, 1200))
     family_overrun(ctx, rng, ctx.scale(80, 1600))
+    family_headers(ctx, rng, ctx.scale(60, 600))
+    family_history(ctx, rng, ctx.scale(250, 6000))
     family_bomb(ctx, rng, batch, ctx.scale(6, 20), 400000 if not thorough else 1000000)
 
 
@@ -1532,4 +1835,6 @@ def search(ctx):
     family_seq(ctx, rng, ctx.scale(5, 10))
     family_web(ctx, rng, ctx.scale(5, 10))
     family_overrun(ctx, rng, ctx.scale(5, 10))
+    family_headers(ctx, rng, ctx.scale(3, 6))
+    family_history(ctx, rng, ctx.scale(10, 30))
     family_bomb(ctx, rng, batch, max(4, ctx.scale(1, 1) // 2), 600000)
